@@ -7,12 +7,12 @@ EXTENDS Naturals, Sequences, TLC, Rabin
 Basis(i) == [k \in 1..8 |-> IF k = ((i - 1) \div 8) + 1 THEN 2 ^ ((i - 1) % 8) ELSE 0]
 States == { ZERO64, EMPTY64 } \cup { Mat(Basis(i)) : i \in 1..64 }
 
-VARIABLES st, b
-Init == st \in States /\ b \in 0..255
-Next == UNCHANGED << st, b >>
+VARIABLES rstate, rbyte
+Init == rstate \in States /\ rbyte \in 0..255
+Next == UNCHANGED << rstate, rbyte >>
 
-InvStep == FPStep(st, b) = FPStepSerial(st, b)
+InvStep == FPStep(rstate, rbyte) = FPStepSerial(rstate, rbyte)
 InvSeed == FP(<<>>) = EMPTY64 /\ Hex64LE(EMPTY64) = Cps("95a7d7a43a215dc1")
 \* linearity itself, on the samples: step(x xor y, 0) = step(x, 0) xor step(y, 0)
-InvLinear == FPStep(Xor64(st, EMPTY64), 0) = Xor64(FPStep(st, 0), FPStep(EMPTY64, 0))
+InvLinear == FPStep(Xor64(rstate, EMPTY64), 0) = Xor64(FPStep(rstate, 0), FPStep(EMPTY64, 0))
 =============================================================================
